@@ -647,6 +647,13 @@ func (g *Gen) evalCall(n *Node, env *Env) (Term, error) {
 	case "old":
 		e2 := env.clone()
 		e2.st = env.old
+		// inside old(), a parameter name denotes its entry value even where a loop variable shadows it
+		if g.fn != nil && !env.calleeMode {
+			for _, p := range g.fn.Params {
+				delete(e2.names, p.Name())
+			}
+			e2.paramsFirst = true
+		}
 		return g.eval(args[0], e2)
 	case "len", "cap":
 		x, err := arg(0)
